@@ -6,12 +6,12 @@
   * termination: the recursion of `resolve` is never cut short by its fuel (`resolve_terminates`), for every world —
     missing files, foreign files, self-imports and import cycles of any length included; the only hypothesis is that the encapsulation hierarchy of each file is a tree (a rank that
     decreases from a component to its children, which C09 establishes for the object graph);
-  * success is exact for units imports (`units_fetched_iff`: fetched iff a finite derivation `UOk` exists) and, for
-    components, along import chains (`units_ok_chain`, `component_ok_chain`): when an item is fetched, the chain of
+  * success is exact (`units_fetched_iff`, `component_fetched_iff`: an item is fetched iff a finite, fuel-free derivation
+    `UOk` / `COk` exists) — in particular along import chains (`units_ok_chain`, `component_ok_chain`): when an item is fetched, the chain of
     imports that starts at it exists link by link and ends in an entity that is not imported — in particular no chain
-    of imports that returns to its start is ever accepted (`self_import_refused`); the full "exactly when every
-    transitive import can be satisfied", which also covers the children and the units of the targets, is decided on
-    the implementation against an independent oracle (checks/C07.py): `..._chain` are the proved part;
+    of imports that returns to its start is ever accepted (`self_import_refused`); that `UOk` / `COk` coincide with "every
+    transitive import can be satisfied" of the independent oracle (a graph formulation, with the known finding about
+    units that are not imported) is compared on the implementation (checks/C07.py);
   * failures are reported with their reason (`missing_file_reported`, `not_xml_reported`, `missing_units_reported`,
     `missing_component_reported`, `file_cycle_reported`), and `resolveImports` is true exactly when no item fails
     (`status_iff`).
@@ -127,6 +127,15 @@ theorem component_ok_chain : ∀ (n : Nat) (w : World) (path : List String) (cur
 theorem units_fetched_iff (w : World) (origin : String) (u : UnitsE) :
     fetchUnits (fuelFor w) w [] origin u = .ok ↔ UOk w [] origin u :=
   ⟨fetchUnits_sound _ w [] origin u, fun h => fetchUnits_complete w h _ (fuel_units w origin)⟩
+
+/-- **exactness for component imports**: an imported component of the origin is fetched exactly when it has a finite
+    derivation `COk` (the file is a model not yet on the path, the referenced component exists, its own import, its
+    encapsulated children and the units used in its subtree are fetched in turn) -/
+theorem component_fetched_iff (w : World) (origin : String) (h : String × String → Nat) (hr : Ranked w h (compBound w))
+    (c : CompE) (hin : InFileC w origin c) :
+    fetchComponent (fuelFor w) w [] origin c = .ok ↔ COk w [] origin c :=
+  ⟨fetchComponent_sound _ w [] origin c,
+   fun hc => fetchComponent_complete w h (compBound w) hr hc hin _ (fuel_comp w origin h hr.1 c)⟩
 
 /-- a units that imports itself (its own file, its own name) is never fetched, whatever the fuel and the history -/
 theorem self_import_refused (w : World) (f : String) (us : List UnitsE) (cs : List CompE) (u : UnitsE)
